@@ -97,6 +97,12 @@ def mk_register(kind="reg3"):
 
         lay = RegisterLayout([[0.0, 0.0], [5.0, 0.0], [0.0, 5.0], [5.0, 5.0], [10.0, 0.0], [10.0, 5.0]], slug="lay6")
         return lay.define_register(0, 2, 1, qubit_ids=("q0", "q1", "q2"))
+    if kind == "mappable3":
+        from pulser.register.mappable_reg import MappableRegister
+        from pulser.register.register_layout import RegisterLayout
+
+        lay = RegisterLayout([[0.0, 0.0], [5.0, 0.0], [0.0, 5.0], [5.0, 5.0], [10.0, 0.0], [10.0, 5.0]], slug="lay6")
+        return MappableRegister(lay, "q0", "q1", "q2")
     raise ValueError(kind)
 
 
@@ -191,7 +197,10 @@ def mk_waveform(inp, w):
     if t == "interp":
         from pulser.waveforms import InterpolatedWaveform
 
-        return InterpolatedWaveform(val(inp, w[1]), val(inp, w[2]), **(dict(times=w[3]) if len(w) > 3 else {}))
+        kw = dict(times=w[3]) if len(w) > 3 and w[3] is not None else {}
+        if len(w) > 4:
+            kw.update(w[4])  # interpolator name and its options
+        return InterpolatedWaveform(val(inp, w[1]), val(inp, w[2]), **kw)
     if t == "composite":
         return CompositeWaveform(*[mk_waveform(inp, x) for x in w[1:]])
     raise ValueError(t)
@@ -456,6 +465,10 @@ def snap_diff(a, b, path=""):
 def timeline(seq):
     """Timeline part of the snapshot (what 'identical timeline' compares)."""
     s = snapshot(seq)
+    if not seq.is_register_mappable():
+        # a sequence built from a mappable register keeps trackers for the ids it did not map: not part of its behaviour
+        ids = set(seq.register.qubit_ids)
+        s["basis_ref"] = {b: {q: t for q, t in d.items() if q in ids} for b, d in s["basis_ref"].items()}
     return dict(schedule={n: dict(slots=v["slots"], blocks=v["blocks"]) for n, v in s["schedule"].items()},
                 basis_ref={b: {q: (t[1][-1],) for q, t in d.items()} for b, d in s["basis_ref"].items()},
                 measurement=s["flags"]["measurement"])
